@@ -4,7 +4,10 @@ import urllib.request
 from debian import debian_support as ds
 
 from ..hx import assume, require, reach, Skip
-from ..stubs import FakeFS, FakeOS, FakeRepo, digest_sha1, digest_sha256
+import gzip
+import tempfile
+
+from ..stubs import FakeFS, FakeOS, FakeRepo, FakeTransport, digest_sha1, digest_sha256
 from .c18 import ed_script
 
 MANIFEST = dict(
@@ -14,11 +17,11 @@ MANIFEST = dict(
     note="Stubs (part of the claim): FakeRepo for urllib/gzip (returns the published lines or IOError), an injective whitespace-free digest for read_lines_sha1/256, FakeFS for open/os.rename/os.unlink/os.path.exists (rename atomic; unlink and reads never fail). Real network, gzip, SHA and power-loss semantics are outside.",
 )
 
-FUNCTIONS = ["debian.debian_support.update_file", "debian.debian_support.download_file",
+FUNCTIONS = ["debian.debian_support.update_file", "debian.debian_support.download_file", "debian.debian_support.download_gunzip_lines",
              "debian.debian_support.replace_file", "debian.debian_support.PackageFile.__iter__",
              "debian.debian_support.PackageFile._aux_read_line",
              "debian.debian_support.patches_from_ed_script", "debian.debian_support.patch_lines"]
-STUBS = ["FakeRepo (urlopen, download_gunzip_lines): published lines or IOError",
+STUBS = ["FakeRepo (urlopen, download_gunzip_lines): published lines or IOError; in the 'update-real-download' partitions the library's own download_gunzip_lines runs and only tempfile.mkstemp, urllib.request.urlretrieve, gzip.open, os.close are stubbed (FakeTransport)",
          "injective digest for read_lines_sha1/read_lines_sha256 (collision-free by construction)",
          "FakeFS (module-global open, os.rename, os.unlink, os.path.exists): POSIX semantics on a dict; the f-th mutating call raises OSError"]
 ASSUMPTIONS = ["digests are collision-free", "rename is atomic; unlink and reads do not fail",
@@ -32,6 +35,9 @@ HISTORIES = {
     "h3": [["1\n"], ["0\n", "1\n", "2\n"], ["0\n", "2\n", "2\n", "3\n"], ["2\n", "3\n", "4\n"]],
     "h2b": [[], ["only\n"], ["first\n", "only\n", "last\n"]],
     "h1": [["k\n", "l\n"], ["k\n"]],
+    # a form feed / other non-LF line-boundary characters inside lines, and later patches below them
+    "hff": [["a\n", "b\n", "c\n", "d\n"], ["a\n", "x\x0cy\n", "b\n", "c\n", "d\n"], ["a\n", "x\x0cy\n", "b\n", "C\u2028\n", "d\n", "e\x1d\n"],
+            ["a\n", "b\n", "C\u2028\n", "e\x1d\n", "f\n"]],
     "hdot": [["Description: x\n", " a\n"], ["Description: x\n", " a\n", " .\n", " b\n"], ["Description: y\n", " .\n", ". \n", " b\n"]],
 }
 REMOTE = "http://repo.invalid/dists/sid/main/Packages"
@@ -74,7 +80,7 @@ def publish(hist, variant, fault, j):
     return objs
 
 
-def run_update(hist, L, variant, fault, j, f):
+def run_update(hist, L, variant, fault, j, f, real_download=False):
     n = len(hist) - 1
     files = {}
     if L <= n:
@@ -85,9 +91,15 @@ def run_update(hist, L, variant, fault, j, f):
     repo = FakeRepo(publish(hist, variant, fault, j))
     saved = (ds.__dict__.get("open"), ds.os, ds.download_gunzip_lines, ds.read_lines_sha1,
              ds.read_lines_sha256, urllib.request.urlopen)
+    transport = FakeTransport(repo, fs)
+    saved2 = (gzip.open, tempfile.mkstemp, urllib.request.urlretrieve)
     ds.open = fs.open
     ds.os = FakeOS(fs)
-    ds.download_gunzip_lines = repo.gunzip_lines
+    if real_download:
+        # the library's own download_gunzip_lines runs; only its I/O primitives are stubbed
+        gzip.open, tempfile.mkstemp, urllib.request.urlretrieve = transport.gzip_open, transport.mkstemp, transport.urlretrieve
+    else:
+        ds.download_gunzip_lines = repo.gunzip_lines
     ds.read_lines_sha1 = digest_sha1
     ds.read_lines_sha256 = digest_sha256
     urllib.request.urlopen = repo.urlopen
@@ -105,6 +117,7 @@ def run_update(hist, L, variant, fault, j, f):
             ds.open = saved[0]
         ds.os, ds.download_gunzip_lines, ds.read_lines_sha1, ds.read_lines_sha256 = saved[1:5]
         urllib.request.urlopen = saved[5]
+        gzip.open, tempfile.mkstemp, urllib.request.urlretrieve = saved2
     return files, fs, repo, ret, exc
 
 
@@ -120,7 +133,7 @@ def h_update(params, L: int, variant: int, fault: int, j: int, f: int):
         assume(j == 0)
     if fault != 4:
         assume(f == 0)
-    before, fs, repo, ret, exc = run_update(hist, L, variant, fault, j, f)
+    before, fs, repo, ret, exc = run_update(hist, L, variant, fault, j, f, real_download=params.get("real_download", False))
     current = hist[n]
     usable = variant in (0, 1)
     patching = usable and L < n
@@ -139,7 +152,7 @@ def h_update(params, L: int, variant: int, fault: int, j: int, f: int):
         require(fs.files.get(LOCAL) == before.get(LOCAL), "local file changed although the update failed",
                 L=L, variant=variant, fault=fault, j=j, f=f, before=before.get(LOCAL), after=fs.files.get(LOCAL))
         require(LOCAL + ".new" not in fs.files, "temporary file left behind", L=L, variant=variant, fault=fault, j=j, f=f)
-        require(sorted(fs.files) == sorted(before), "unexpected files", files=sorted(fs.files))
+        require(sorted(fs.files) == sorted(before), "unexpected files (temporary download left behind?)", files=sorted(fs.files))
         reach(params, "fail-safe")
         if fault == 4:
             reach(params, "write-fault")
@@ -162,6 +175,10 @@ def h_update(params, L: int, variant: int, fault: int, j: int, f: int):
 def partitions(tier, seed):
     P = []
     hs = ("h2", "h1", "hdot") if tier == "quick" else ("h2", "h3", "h2b", "h1", "hdot")
+    for h in (("hff", "h2") if tier == "quick" else ("hff", "h2", "h3", "hdot")):
+        P.append(dict(name="update-real-download/%s" % h, harness="h_update", params=dict(history=h, max_f=9 if tier == "quick" else 12, real_download=True),
+                      budget=150 if tier == "quick" else 1200,
+                      bounds="history %s with the library's own download_gunzip_lines running over stubbed mkstemp/urlretrieve/gzip.open; same state x index x fault space" % h))
     for h in hs:
         P.append(dict(name="update/%s" % h, harness="h_update", params=dict(history=h, max_f=8 if tier == "quick" else 10),
                       budget=150 if tier == "quick" else 1200,
